@@ -180,6 +180,11 @@ fn compute_error_range(index: usize, input: &str) -> (usize, usize) {
       if !ch.is_ascii_whitespace() && ch != b';' {
         // Found a non-ws char. Find the start of this token.
         let token_end = pos + 1;
+        // `pos` may be the last byte of a multi-byte UTF-8 scalar: step back to
+        // its first byte so the range starts on a character boundary.
+        while pos > 0 && (bytes[pos] & 0xC0) == 0x80 {
+          pos -= 1;
+        }
         let token_start = scan_token_start(bytes, pos);
         return (token_start, token_end);
       }
@@ -215,8 +220,12 @@ fn scan_token_end(bytes: &[u8], start: usize) -> usize {
       }
     }
   } else {
-    // Single character (operator, delimiter, etc.)
+    // Single character (operator, delimiter, etc.): step over the whole UTF-8
+    // scalar so the range ends on a character boundary.
     pos += 1;
+    while pos < bytes.len() && (bytes[pos] & 0xC0) == 0x80 {
+      pos += 1;
+    }
   }
   pos
 }
